@@ -351,6 +351,11 @@ pub fn install_panic_hook() {
     }));
 }
 
+/// is the calling thread inside a guarded library call?
+pub fn in_guard() -> bool {
+    GUARD_DEPTH.try_with(|d| d.get() > 0).unwrap_or(false)
+}
+
 /// First access of this module's thread-local state that has a destructor (see sched::ExitProbe).
 pub fn touch_tls() {
     let _ = LAST_PANIC.try_with(|_| ());
